@@ -657,6 +657,10 @@ def sync_jobs(
         exclude = []
     elif not isinstance(exclude, list):
         exclude = [exclude]
+    else:
+        # The internal patterns appended below must not end up in the caller's list
+        # (which may be used again, e.g. by sync_projects for jobs to be cloned).
+        exclude = list(exclude)
     # The exclude patterns are regular expressions matched from the start of the name.
     exclude.append(re.escape(src.FN_STATE_POINT) + "$")
     if doc_sync != DocSync.COPY:
